@@ -68,8 +68,12 @@ func main() {
 			obs, hung := runWatched(eng, in, limit)
 			if !hung && obs.IsLeaf == false && len(obs.Kids) == 2 && obs.Kids[0].IsLeaf && obs.Kids[0].Int() == -1 && !obs.Kids[1].IsLeaf {
 				// the code under test (or the harness) panicked outside anything the engine catches itself
-				fmt.Fprintf(w, "CRASH panic: %s\n", string(obs.Kids[1].ByteSlice()))
-				return nil
+				if judgesPanics[os.Args[1]] {
+					obs = sx.T(sx.L(-1)) // these engines' models say when a call panics: an observation like any other
+				} else {
+					fmt.Fprintf(w, "CRASH panic: %s\n", string(obs.Kids[1].ByteSlice()))
+					return nil
+				}
 			}
 			if hung {
 				// the code under test never came back (deadlock, lost wake-up): reported like a crash of this case; the
@@ -96,6 +100,9 @@ func main() {
 }
 
 // a panic in the code under test is an observation: (-1)
+// engines whose judge decides panics itself (observation (-1)); for the others a panic is a crash of the case
+var judgesPanics = map[string]bool{"e3": true, "e7": true, "e8": true}
+
 // runWatched runs one case with a watchdog.
 func runWatched(eng engine, in sx.Tree, limit time.Duration) (sx.Tree, bool) {
 	ch := make(chan sx.Tree, 1)
